@@ -117,11 +117,13 @@ func judgeC15(x scnResult, res *MonitorResult) {
 	paySuccess := map[string]int{}
 	cancelled := false
 	sha := map[string]string{}
+	stored, storedAtCrash, failedFirst := "", "", false
 	for _, o := range x.w.obs {
 		switch o.Kind {
 		case "crash":
 			if o.A["in"] == "broadcast.opening" {
 				crashedInBroadcast = true
+				storedAtCrash = stored // the state the store holds while the broadcast goes unrecorded
 			}
 			if o.A["in"] == "pay" {
 				crashedInPay = true
@@ -132,14 +134,26 @@ func judgeC15(x scnResult, res *MonitorResult) {
 				if openings == 2 {
 					cause := "other"
 					if crashedInBroadcast {
-						cause = "crash-between-broadcast-and-persist"
+						// the history is part of the signature: which state was stored when the process died with
+						// the broadcast unrecorded, and whether an earlier attempt had failed
+						cause = "crash-between-broadcast-and-persist/stored=" + strings.TrimPrefix(strings.TrimPrefix(storedAtCrash, "State_SwapInSender_"), "State_SwapOutReceiver_")
+						if failedFirst {
+							cause += "/after-a-failed-attempt"
+						}
 					}
 					res.addFinding("C15/"+x.sc.role+"/second-opening/"+cause, "a second opening transaction was broadcast for the same swap", map[string]interface{}{"scenario": scenarioKey(x.sc.steps)})
 				}
 			}
 		case "persist":
+			if o.Swap == "s1" {
+				stored = o.A["state"]
+			}
 			if o.Swap == "s1" && (o.A["state"] == "State_SwapCanceled" || o.A["state"] == "State_SendCancel" || o.A["cancel"] == "1" && strings.Contains(o.A["state"], "Canceled")) {
 				cancelled = true
+			}
+		case "step":
+			if strings.HasPrefix(o.A["s"], "fault opening") {
+				failedFirst = true
 			}
 		case "pay":
 			res.Histogram["pay "+o.A["kind"]+" "+o.A["out"]]++
